@@ -31,7 +31,12 @@
    all eleven operation kinds, any number of offered nodes and any kind-based filter, a successful `astep` satisfies
    `edit_ok` (under unique identities; the guard `setitem_guard` excludes exactly finding 18, which
    `C01_setitem_childless_violates_edit_ok` states against the relation).  `C01_edit_ok` composes it with the
-   refinement: a successful call on the concrete text-chain model, seen through `abs_world`, satisfies `edit_ok`. *)
+   refinement: a successful call on the concrete text-chain model, seen through `abs_world`, satisfies `edit_ok`.
+   merge_text_nodes has its own independent clause: the flat view changes only inside the subtree at p, the new subtree
+   has the same normal form `norm` (same element-like nodes with their identities, payloads, parents and order, the same
+   text between any two of them), no two adjacent children of any node are text nodes (`merged`), and no identity
+   appears that was not there (`C01_merge_spec`; that the survivor of a run is its *first* member, and the dropping of
+   empty results, are not part of the clause -- the latter cannot arise without empty text). *)
 From Coq Require Import List NArith ZArith Bool.
 From Delb.Base Require Import PyStr.
 From Delb.Tree Require Import ATree ITree AOps.
@@ -115,6 +120,11 @@ Theorem C01_setitem_childless_violates_edit_ok : forall F w p i f s,
   filter (vis_id F w) (kids_of w p) = [] -> ~ edit_ok F w (OSetItem p i (SStr f s)) w.
 Proof. exact setitem_childless_violates. Qed.
 Print Assumptions C01_setitem_childless_violates_edit_ok.
+
+(* merging, characterised without the merge function *)
+Theorem C01_merge_spec : forall t, norm (merge_tree t) = norm t /\ merged (merge_tree t) = true.
+Proof. intros t. split; [exact (merge_tree_norm t)|exact (merge_tree_merged t)]. Qed.
+Print Assumptions C01_merge_spec.
 
 (* the guard is necessary: one witness per class *)
 Theorem C01_step_refuted_empty_content : exists c o,
